@@ -415,7 +415,7 @@ func (r *c01Run) step(ev string) bool {
 			key = make([]byte, 32)
 		}
 		do("POST", "/pair-verify", refctl.CTPairing, refctl.VerifyM3Sealed(key, v.M3Sub(idL.ID, idX.Priv)))
-	case "forged-finish-naming-L-then-ciphertext", "forged-finish-naming-accessory-then-ciphertext", "finish-naming-accessory-signed-with-zero-seed-key-then-ciphertext":
+	case "forged-finish-naming-L-then-ciphertext", "forged-finish-naming-accessory-then-ciphertext", "finish-naming-accessory-signed-with-zero-seed-key-then-ciphertext", "forged-finish-naming-L-with-own-key-item-then-ciphertext":
 		v := refctl.NewVerify(refctl.Seed32(fmt.Sprintf("%s:%d", who, r.seq)))
 		m, _, err := do("POST", "/pair-verify", refctl.CTPairing, refctl.VerifyM1(v.EphPub))
 		if err != nil || m.Status != 200 || v.ParseM2(m.Body, nil) != nil {
@@ -432,7 +432,13 @@ func (r *c01Run) step(ev string) bool {
 			// lost its randomness would own exactly this one)
 			signer = ed25519.NewKeyFromSeed(make([]byte, 32))
 		}
-		do("POST", "/pair-verify", refctl.CTPairing, refctl.VerifyM3Sealed(v.EncKey, v.M3Sub(name, signer)))
+		sub := v.M3Sub(name, signer)
+		if strings.Contains(op, "own-key-item") {
+			// … and the adversary's public key as an extra item of the signed payload
+			mat := append(append(append([]byte{}, v.EphPub...), name...), v.AccEph...)
+			sub = refctl.TLVEncode(refctl.T(refctl.TagIdentifier, []byte(name)), refctl.T(refctl.TagPublicKey, idX.Pub), refctl.T(refctl.TagSignature, ed25519.Sign(idX.Priv, mat)))
+		}
+		do("POST", "/pair-verify", refctl.CTPairing, refctl.VerifyM3Sealed(v.EncKey, sub))
 		a2c, c2a := refctl.SessionKeys(v.Shared)
 		pr := cn.k.ProbeEncrypted(a2c, c2a, refctl.BuildRequest("GET", "/accessories", "", nil))
 		cn.dead = true
@@ -648,6 +654,8 @@ func c01Run1(c *fw.Ctx) {
 		{"L:verify", "L:subscribe", "X1:return-from-own-port-while-old-handler-runs", "app:set", "X1:get-accessories", "X1:put-value"},
 		{"X1:get-accessories", "X1:return-from-own-port-while-old-handler-runs", "X1:get-characteristics"},
 		{"X1:finish-naming-accessory-signed-with-zero-seed-key-then-ciphertext"},
+		{"X1:forged-finish-naming-L-with-own-key-item-then-ciphertext"},
+		{"L:verify", "L:subscribe", "X1:forged-finish-naming-L-with-own-key-item-then-ciphertext", "app:set"},
 		{"L:verify", "X1:finish-naming-accessory-signed-with-zero-seed-key-then-ciphertext", "app:set"},
 	} {
 		if i%c.NShards == c.Shard {
@@ -735,7 +743,7 @@ func init() {
 	fw.Register(&fw.Check{
 		ID:    "C01",
 		Level: "model_checking",
-		Rule:  "every history of length 3 (quick) / 4 (thorough) over 30 symbols, in thorough also every history of length 3 over 41 symbols (second adversary connection with every operation), and every history of length 2 / 3 from two non-initial states (L verified and subscribed; the same with adversary connections already open and a value changed): two adversary connections X1, X2 (plaintext GET /accessories, GET /characteristics, PUT value, PUT ev, POST /resource, POST /pairings add / remove, pair-verify start, forged and zero-key finish, pair-setup start, wrong-code verify and a key exchange under the all-zero key with the neutral group element as long-term key, a request sealed under keys derived from its own exchange, a fresh exchange finished with a correctly sealed message naming L or the accessory itself under the adversary's signature and at once followed by ciphertext under that exchange's keys, reopen, reconnect from exactly the source address and port the legitimate controller used; and every protected target — attribute database, characteristic read / write / subscribe, pairing add / remove, resource — with each of 9 HTTP methods including DELETE, PATCH, OPTIONS, TRACE, a lower-case and an unknown one; fixed histories in which the adversary resets a connection whose handler is still running and returns from the same source port, and in which it finishes pair-verify under the accessory's own name with the Ed25519 key of the all-zero seed), a legitimate controller L (verify, changing write, subscribe, close, and a pair-verify whose finish request is split with Expect: 100-continue so that its handler overlaps with the events that follow) and the application (set value), against the real transport (with /resource registered) over TCP, fresh system per history. After EVERY event: each protected operation on a connection the model holds as unverified is refused (status not 2xx, body discloses no attribute, value or canary — checked as plaintext and after decryption under every key the adversary holds), no EVENT precedes a barrier request on any adversary connection, characteristic values / every application callback counter / stored pairings are exactly what the model says; at the end of every history L (if verified) must still be served and every live adversary connection must still answer in plaintext, refuse, and not serve ciphertext under its own exchange keys. states = histories executed (each judges all its prefixes) Plus, in a subprocess built with a scheduling point before EVERY statement of hc's packages (textual insertion through go build -overlay): every interleaving with at most 1 (thorough 2) preemptions of pairs of handlers / users of connections on one accessory (a verified and a newly accepted unverified connection; two writers, a writer and the reader of one encrypted connection, writers on two connections) — each side must observe exactly what it observes when the two run one after the other.",
+		Rule:  "every history of length 3 (quick) / 4 (thorough) over 30 symbols, in thorough also every history of length 3 over 41 symbols (second adversary connection with every operation), and every history of length 2 / 3 from two non-initial states (L verified and subscribed; the same with adversary connections already open and a value changed): two adversary connections X1, X2 (plaintext GET /accessories, GET /characteristics, PUT value, PUT ev, POST /resource, POST /pairings add / remove, pair-verify start, forged and zero-key finish, pair-setup start, wrong-code verify and a key exchange under the all-zero key with the neutral group element as long-term key, a request sealed under keys derived from its own exchange, a fresh exchange finished with a correctly sealed message naming L or the accessory itself under the adversary's signature and at once followed by ciphertext under that exchange's keys, reopen, reconnect from exactly the source address and port the legitimate controller used; and every protected target — attribute database, characteristic read / write / subscribe, pairing add / remove, resource — with each of 9 HTTP methods including DELETE, PATCH, OPTIONS, TRACE, a lower-case and an unknown one; fixed histories in which the adversary resets a connection whose handler is still running and returns from the same source port, and in which it finishes pair-verify under the accessory's own name with the Ed25519 key of the all-zero seed, or under L's name with its own public key as an extra item of the signed payload), a legitimate controller L (verify, changing write, subscribe, close, and a pair-verify whose finish request is split with Expect: 100-continue so that its handler overlaps with the events that follow) and the application (set value), against the real transport (with /resource registered) over TCP, fresh system per history. After EVERY event: each protected operation on a connection the model holds as unverified is refused (status not 2xx, body discloses no attribute, value or canary — checked as plaintext and after decryption under every key the adversary holds), no EVENT precedes a barrier request on any adversary connection, characteristic values / every application callback counter / stored pairings are exactly what the model says; at the end of every history L (if verified) must still be served and every live adversary connection must still answer in plaintext, refuse, and not serve ciphertext under its own exchange keys. states = histories executed (each judges all its prefixes) Plus, in a subprocess built with a scheduling point before EVERY statement of hc's packages (textual insertion through go build -overlay): every interleaving with at most 1 (thorough 2) preemptions of pairs of handlers / users of connections on one accessory (a verified and a newly accepted unverified connection; two writers, a writer and the reader of one encrypted connection, writers on two connections) — each side must observe exactly what it observes when the two run one after the other.",
 		Run:   c01Run1,
 		Replay: func(c *fw.Ctx, raw json.RawMessage) {
 			var cas c01Case
